@@ -279,6 +279,8 @@ pub enum Tier {
 struct Inner {
     evaluations: u64,
     nontrivial: HashSet<u64>,
+    /// cases counted as distinct by construction (exhaustive enumerations)
+    nontrivial_counted: u64,
     classes: BTreeMap<String, u64>,
     samples: Vec<Value>,
     subdomains: Vec<Value>,
@@ -378,6 +380,11 @@ impl Ctx {
             g.nontrivial.insert(x);
         }
     }
+    /// non-trivial cases that are distinct by construction (each input of an
+    /// enumeration is visited once), counted exactly by the caller's predicate
+    pub fn add_nontrivial_counted(&self, n: u64) {
+        self.inner.lock().unwrap().nontrivial_counted += n;
+    }
     pub fn add_class(&self, name: &str, n: u64) {
         *self.inner.lock().unwrap().classes.entry(name.to_string()).or_insert(0) += n;
     }
@@ -462,6 +469,7 @@ impl Ctx {
     pub fn merge_child(&self, child: &Value) {
         let mut g = self.inner.lock().unwrap();
         g.evaluations += child["evaluations"].as_u64().unwrap_or(0);
+        g.nontrivial_counted += child["nontrivial_counted"].as_u64().unwrap_or(0);
         for x in child["nontrivial_fps"].as_array().cloned().unwrap_or_default() {
             if let Some(n) = x.as_u64() {
                 g.nontrivial.insert(n ^ 0x9e37_79b9_7f4a_7c15);
@@ -511,6 +519,7 @@ impl Ctx {
         let g = self.inner.lock().unwrap();
         json!({
             "evaluations": g.evaluations,
+            "nontrivial_counted": g.nontrivial_counted,
             "nontrivial_fps": g.nontrivial.iter().take(200_000).collect::<Vec<_>>(),
             "classes": g.classes,
             "engines": g.engines,
@@ -550,7 +559,7 @@ impl Ctx {
             "level": "exploration",
             "coverage": {
                 "evaluations": g.evaluations,
-                "distinct_nontrivial": g.nontrivial.len(),
+                "distinct_nontrivial": g.nontrivial.len() as u64 + g.nontrivial_counted,
                 "rule": *self.rule.lock().unwrap(),
                 "samples": samples,
                 "exhaustive": exhaustive,
@@ -592,7 +601,7 @@ impl Ctx {
             if self.quick() { "quick" } else { "thorough" },
             self.profile,
             g.evaluations,
-            g.nontrivial.len(),
+            g.nontrivial.len() as u64 + g.nontrivial_counted,
             g.findings.len(),
             g.known_hits.values().sum::<u64>(),
             wall
